@@ -48,6 +48,12 @@ P = {
  "C11": (True, "exploration", "%s, recorded callback log, and metamorphic comparison of the call forms" % M,
          "params 0..4 x args 0..6 x 4 call forms x 6 uses exhaustively, unknown-macro errors, random acyclic macro nests.",
          "Stated exclusions (_self through imports, definitions before calls, bodies use parameters only).", "DESIGN.md#c11"),
+ "C12": (True, "exploration", "runtime monitoring: sentinel-bracketed prints in a Twig environment; per-segment exactness against the escaper for the statement's content-type rule and whole-output scan for significant characters",
+         "Exhaustive product of 20 template names x 31 constructs x same/different helper type x 13 payloads x 4 value wrappers; random payloads over the significant alphabet on top.",
+         "User-registered escapers not exercised; indirect prints (captures, macros, block(), parent()) are held to safety only, as the statement does.", "DESIGN.md#c12"),
+ "C14": (True, "exploration", "runtime monitoring: metamorphic oracle - every re-spelling (whitespace at each token boundary, quotes, trailing commas, trim markers) must render the same bytes, error kind and callback log as the canonical spelling",
+         "One template per tag kind and expression form (41), each at 5 placements; exhaustive single-boundary sweep x 7 whitespace strings, pairwise sweeps, uniform and combined variants; random programs x random re-spellings.",
+         "Tokens are the generator's; whitespace may be empty only where tokens cannot merge (gen.CanAbut).", "DESIGN.md#c14"),
 }
 NOT_BUILT_REASON = "check not built yet in this round (planned: see DESIGN.md section for this property)"
 
